@@ -70,6 +70,17 @@ class Worker(Router):
         if self.health_check_server is not None:
             await self.health_check_server.start()
 
+        try:
+            return await self._run()
+        finally:
+            # the port must not stay open after the run is over, whichever way it ends
+            if self.health_check_server is not None:
+                await asyncio.wait_for(
+                    self.health_check_server.stop(),
+                    timeout=self.graceful_health_check_server_finish_time,
+                )
+
+    async def _run(self) -> _Runner:
         runner = _Runner(
             max_tasks=self.messages_limit,
             tasks_concurrency_limit=self.tasks_limit,
@@ -79,8 +90,6 @@ class Worker(Router):
 
         if not self.actors or not self.topics_by_queue:
             logger.info("Exiting worker, as there are no actors to run.")
-            if self.health_check_server is not None:  # pragma: no cover
-                await self.health_check_server.stop()
             return runner
 
         if self.auto_declare:
@@ -112,12 +121,6 @@ class Worker(Router):
             await asyncio.wait_for(
                 asyncio.gather(*(c.finish() for c in consumers)),
                 timeout=self.graceful_consumer_finish_time,
-            )
-
-        if self.health_check_server is not None:
-            await asyncio.wait_for(
-                self.health_check_server.stop(),
-                timeout=self.graceful_health_check_server_finish_time,
             )
 
         self._unregister_signals(loop)
